@@ -208,14 +208,14 @@ def graph_submit(ctx, jobs, name, consts, flags):
     cfg = os.path.join(d, "gen.cfg")
     constants = dict(consts, FixDelete="TRUE" if flags["FixDelete"] else "FALSE", FixPatch="TRUE" if flags["FixPatch"] else "FALSE")
     tlc.write_cfg(cfg, spec="Spec", constants=constants,
-                  invariants=["TypeOK"] + (["Confined", "UnsafeRefused"] if fixed else []))
-    jobs.submit(("graph", name), "WorkTreeConf.tla", cfg, workers=ctx.pick(4, 8), dump_dot=dot, timeout=1500)
+                  invariants=["TypeOK"] + (["Confined", "UnsafeRefused"] if fixed else []), constraint=["Modelled"])
+    jobs.submit(("graph", name), "WorkTreeConf.tla", cfg, workers=ctx.pick(2, 4), dump_dot=dot, timeout=1500)
     if not fixed:
         # the model-checking claim is about the repaired design
         cfg2 = os.path.join(d, "mc.cfg")
         tlc.write_cfg(cfg2, spec="Spec", constants=dict(consts, FixDelete="TRUE", FixPatch="TRUE"),
-                      invariants=["TypeOK", "Confined", "UnsafeRefused"])
-        jobs.submit(("mc", name), "WorkTreeConf.tla", cfg2, workers=ctx.pick(4, 8), timeout=1500)
+                      invariants=["TypeOK", "Confined", "UnsafeRefused"], constraint=["Modelled"])
+        jobs.submit(("mc", name), "WorkTreeConf.tla", cfg2, workers=ctx.pick(2, 4), timeout=1500)
     return dot, fixed
 
 
@@ -243,7 +243,15 @@ def collect(ctx, pool, it, total, budget_s, name, traces=None):
     t0 = time.time()
     agg = {"executed_ops": 0, "matched_steps": 0, "jobs_done": 0, "behaviours_executed": 0, "violating": 0,
            "drifting": 0, "unreached": 0}
-    for r in it:
+    while agg["jobs_done"] < total:
+        try:
+            r = it.next(timeout=180)
+        except StopIteration:
+            break
+        except mp.TimeoutError:
+            raise MachineryError(f"{name}: no result from the workers for 180 s (hang in an operation?)")
+        if "crash" in r:
+            raise MachineryError(f"{name}: the harness failed while observing {r['history']}: {r['crash']}")
         agg["jobs_done"] += 1
         agg["executed_ops"] += r["executed"]
         agg["matched_steps"] += r["matched"]
@@ -333,7 +341,7 @@ def trace_validation(ctx, pool, flags, unsafe, comps, count, budget_s):
 # --------------------------------------------------------------------------- run
 def run(ctx):
     pool = Pool(ctx)
-    jobs = TlcJobs(ctx, ctx.pick(5, 3))
+    jobs = TlcJobs(ctx, ctx.pick(4, 2))      # at most 8 TLC worker threads in total
     try:
         dump = os.path.join(ctx.tmpdir("names"), "names")
         jobs.submit("names", "WorkTreeConfNamesMC.tla", "WorkTreeConfNamesMC.cfg", workers=2, dump_states=dump, timeout=300)
@@ -344,12 +352,12 @@ def run(ctx):
             "names1": ({"TreeSet": "<- TreesNames", "Ops": "<- OpsAll", "MaxLen": 1, "Prots": "<- AllProts"}, ctx.pick(20, 120)),
             "tiny3": ({"TreeSet": "<- TreesTiny", "Ops": "<- OpsAll", "MaxLen": 3, "Prots": D}, ctx.pick(25, 200)),
             "mid2": ({"TreeSet": "<- TreesMid", "Ops": "<- OpsAll", "MaxLen": 2, "Prots": "<- ProtsQuick"}, ctx.pick(25, 200)),
-            "gl3": ({"TreeSet": "<- TreesGl", "Ops": "<- OpsAll", "MaxLen": 3, "Prots": D}, 200),
+            "gl3": ({"TreeSet": "<- TreesGl", "Ops": "<- OpsAll", "MaxLen": 3, "Prots": D}, 60),
             "core2": ({"TreeSet": "<- TreesCore", "Ops": "<- OpsAll", "MaxLen": 2, "Prots": D}, 300),
             "small3": ({"TreeSet": "<- TreesSmall", "Ops": "<- OpsAll", "MaxLen": 3, "Prots": D}, 300),
             "full2": ({"TreeSet": "<- TreesFull", "Ops": "<- OpsNoClone", "MaxLen": 2, "Prots": D}, 400),
         }
-        order = ctx.pick(["names1", "tiny3", "mid2"], ["names1", "tiny3", "mid2", "core2", "small3", "full2"])
+        order = ctx.pick(["names1", "tiny3", "mid2"], ["names1", "tiny3", "mid2", "gl3", "core2", "small3", "full2"])
         only = os.environ.get("C17_ONLY", "")
         if only:
             order = [x for x in only.split(",") if x in plans]
